@@ -136,6 +136,19 @@ def single_matrix_to_matrix_of_matrices(
     return output
 
 
+def _log10(value: NumberOrArray) -> NumberOrArray:
+    """
+    Base 10 logarithm computed (at least) in double precision for integer
+    arguments.
+
+    `np.log10` of a narrow numpy integer (an `np.int8`/`np.uint8` value or
+    array is computed in float16, an `np.int16` one in float32), which leaves
+    only 3 (7) significant digits in a dB value. Adding `0.0` first promotes
+    integers to float64 and keeps the precision of floating point arguments.
+    """
+    return np.log10(np.asarray(value) + 0.0)  # type: ignore
+
+
 def dB2Linear(valueIndB: NumberOrArray) -> NumberOrArray:
     """
     Convert input from dB to linear scale.
@@ -177,7 +190,7 @@ def linear2dB(valueInLinear: NumberOrArray) -> NumberOrArray:
     >>> linear2dB(1000)
     30.0
     """
-    return 10.0 * np.log10(valueInLinear)  # type: ignore
+    return 10.0 * _log10(valueInLinear)  # type: ignore
 
 
 def dBm2Linear(valueIndBm: NumberOrArray) -> NumberOrArray:
@@ -299,7 +312,7 @@ def SNR_dB_to_EbN0_dB(SNR: NumberOrArray, bits_per_symb: int) -> NumberOrArray:
         Eb/N0 value (in dB)
 
     """
-    EbN0 = SNR - 10 * np.log10(bits_per_symb)
+    EbN0 = SNR - 10 * _log10(bits_per_symb)
 
     return EbN0  # type: ignore
 
@@ -321,5 +334,5 @@ def EbN0_dB_to_SNR_dB(EbN0: NumberOrArray,
         SNR value (in dB)
 
     """
-    SNR = EbN0 + 10 * np.log10(bits_per_symb)
+    SNR = EbN0 + 10 * _log10(bits_per_symb)
     return SNR  # type: ignore
